@@ -206,7 +206,9 @@ def gen_jobs(ctx):
     cap = 400 if thorough else 70
     programs = []
     for name, prog in pg.PROC_CORPUS.items():
-        programs.append((f'pg:{name}', prog, {'a': 1, 'ns': {'d0': [0]}}))
+        programs.append((f'pg:{name}', prog, None if prog.get('bare') else {'a': 1, 'ns': {'d0': [0]}}))
+        if prog.get('bare'):
+            programs.append((f'pg:{name}-empty', prog, {}))
     for name, prog in ((n, p) for n, p in pm.CORPUS.items() if n not in ('RetAwaitable', 'MissingOut')):   # its result is a live awaitable object
         if prog['kind'] == 'proc':
             programs.append((f'pm:{name}', prog, None))
